@@ -158,7 +158,7 @@ def symbols_of(decl):
             children.append(c)
         et = FType(CTYPE_ENUM, None, None, children)
         et.is_bitfield = bool(decl.get('flags'))
-        return [FSym(CSYMBOL_TYPE_TYPEDEF, decl['name'], et, f, ln + 1 + len(children))]
+        return [FSym(CSYMBOL_TYPE_TYPEDEF, decl['name'], et, f, decl.get('end') or ln + 1 + len(children))]
     if k == 'typedef_callback':
         ft = FType(CTYPE_FUNCTION, None, build_type(decl['ret'], f, ln),
                    build_params(decl['params'], decl.get('varargs'), f, ln))
